@@ -62,6 +62,10 @@ def run_case(ctx, case):
         truth = False
     m = drv.call("curve.bin", "eq", *curve_args(*sa), *curve_args(*sb))
     rec.count("truth", str(truth))
+    twa, twb = mixed_twins(*A), mixed_twins(*B)
+    for x_, y_ in zip(twa, twb):          # the same comparison on numerically equal python-int / float knots first
+        impl(lambda: x_ == y_)
+        rec.count("twin", "mixed-knot-types-first")
     for name, x, y in (("A==B", ca, cb), ("B==A", cb, ca)):
         r = impl(lambda: x == y)
         rn = impl(lambda: x != y)
@@ -162,6 +166,10 @@ def run(ctx):
     for i in range(budget(ctx, 80, 1000)):
         label = rng.choice(labels)
         U, P, W = rand_curve(rng, pmax=3 if label in ("same", "perturbed", "unrelated") else 2, nintmax=2, force_zero=(i % 8 == 0))
+        if i % 7 == 4:
+            U = rand_int_kv(rng, pmax=2, nintmax=2) if rng.random() < 0.5 else rand_dyadic_kv(rng, pmax=2, nintmax=2)
+            P = rand_points(rng, kv_info(U)[1], len(P[0]))
+            W = None if W is None else rand_weights(rng, kv_info(U)[1], "pos")
         if W is not None and kv_info(U)[0] > 2:
             W = None
         if label in ("raised", "perturbed-raised"):
